@@ -1,6 +1,7 @@
 package codec
 
 import (
+	"net/url"
 	"bytes"
 	"fmt"
 )
@@ -11,6 +12,7 @@ func init() {
 	vxRegister("VX_C11_PlainReuse", VX_C11_PlainReuse)
 	vxRegister("VX_C11_FormRoundTrip", VX_C11_FormRoundTrip)
 	vxRegister("VX_C11_FormGarbage", VX_C11_FormGarbage)
+	vxRegister("VX_C11_FormIndependent", VX_C11_FormIndependent)
 }
 
 type vxName string
@@ -256,4 +258,33 @@ func VX_C11_FormGarbage(args []int) {
 	var d vxForm
 	c.Unmarshal(in, &d)
 	vxCover("c11.form.garbage")
+}
+
+// VX_C11_FormIndependent: a value decoded by the form codec does not share
+// storage with the input buffer (the framework decodes bodies out of a pooled
+// receive buffer that the next frame overwrites): after the input bytes are
+// overwritten, the decoded string fields, list elements and generic
+// url.Values still hold what was decoded. args: n (length of each value)
+func VX_C11_FormIndependent(args []int) {
+	n := args[0]
+	c := FormCodec{}
+	s0, l0 := vxString("s", n), vxString("l", n)
+	for k := 0; k < n; k++ {
+		vxAssume(s0[k] >= 'a' && s0[k] <= 'z' && l0[k] >= 'a' && l0[k] <= 'z')
+	}
+	in := []byte("s=" + s0 + "&l=" + l0)
+	var d vxForm
+	vxAssert(c.Unmarshal(in, &d) == nil, "form decodes a well-formed query")
+	var generic url.Values
+	in2 := append([]byte{}, in...)
+	vxAssert(c.Unmarshal(in2, &generic) == nil, "form decodes into url.Values")
+	vxAssert(d.S == s0 && len(d.L) == 1 && d.L[0] == l0 && generic.Get("s") == s0, "form decodes the values sent")
+	for k := range in {
+		in[k] = 'X'
+		in2[k] = 'X'
+	}
+	vxAssert(d.S == s0, "decoded string field is independent of the input buffer")
+	vxAssert(len(d.L) == 1 && d.L[0] == l0, "decoded list element is independent of the input buffer")
+	vxAssert(generic.Get("s") == s0, "decoded url.Values are independent of the input buffer")
+	vxCover("c11.form.independent")
 }
